@@ -26,6 +26,7 @@ FRAGMENTS = [
     # headings that repeat (section ids have to be made unique), a field tag followed by many words and no colon
     'Example\n=======\n\ntext\n\nExample\n=======\n\nmore\n\nExample\n=======\n\nend\n\nExample\n=======\n\nlast',
     'Head\n====\n\nSub\n---\n\na\n\nSub\n---\n\nb\n\nSub\n---\n\nc',
+    'Step\n====\n\na\n\nStep 2\n======\n\nb\n\nStep\n====\n\nc\n\nStep 1\n======\n\nd\n\nStep\n====\n\ne', 'Level 22\n========\n\na\n\nLevel 22\n========\n\nb\n\nLevel\n=====\n\nc\n\nLevel 2\n=======\n\nd',
     '@note ' + 'word ' * 40 + 'and no colon', '@param name ' + 'lorem ipsum ' * 25, 'Text.\n\n@return ' + 'x ' * 60,
     # a tokenizer warning first, a fatal error later (the order of the collected errors must not matter)
     'Frob A.\n\n@note that this is slow B\n\n    This paragraph is indented too much C.', 'Frob A.\n\nUsage\n======\n\nCall it B.\n\n    Indented too much C.',
